@@ -199,7 +199,7 @@ func runC19(c *core.Ctx) {
 					return false
 				}
 				l, ok := e.Tuple.(*ssa.Lookup)
-				return ok && an.LoadedField(l.X, "CredentialsStore", "perms") && key(l.Index)
+				return ok && an.LoadedField(l.X, "CredentialsStore", "perms") && (key(l.Index) || key(an.Rz(l.Index)))
 			}
 		}
 		lvl2 := func(key func(ssa.Value) bool) func(ssa.Value) bool {
@@ -209,7 +209,7 @@ func runC19(c *core.Ctx) {
 					return false
 				}
 				l, ok := e.Tuple.(*ssa.Lookup)
-				if !ok || !isParamN(fn, 2)(l.Index) {
+				if !ok || !(isParamN(fn, 2)(l.Index) || isParamN(fn, 2)(an.Rz(l.Index))) {
 					return false
 				}
 				m, ok := l.X.(*ssa.Extract)
@@ -217,7 +217,7 @@ func runC19(c *core.Ctx) {
 					return false
 				}
 				l1, ok := m.Tuple.(*ssa.Lookup)
-				return ok && an.LoadedField(l1.X, "CredentialsStore", "perms") && key(l1.Index)
+				return ok && an.LoadedField(l1.X, "CredentialsStore", "perms") && (key(l1.Index) || key(an.Rz(l1.Index)))
 			}
 		}
 		user, all := isParamN(fn, 1), isConstStr("*")
